@@ -303,7 +303,12 @@ impl Responder {
         let mut rejected = Vec::new();
         // Republish all the dispute transactions of the reorged trackers.
         for uuid in reorged_trackers {
-            let tracker = dbm.load_tracker(uuid).unwrap();
+            // The tracker may be gone by now: the Watcher drops it if the dispute shows up again
+            // in the new chain and the penalty gets rejected.
+            let tracker = match dbm.load_tracker(uuid) {
+                Some(tracker) => tracker,
+                None => continue,
+            };
             let dispute_txid = tracker.dispute_tx.compute_txid();
             // Try to publish the dispute transaction.
             let should_publish_penalty = match carrier.send_transaction(&tracker.dispute_tx) {
